@@ -434,7 +434,8 @@ fn cmd_escape(mode: &str, maxlen: usize, matching_only: bool) -> (u64, Vec<Strin
                 }
                 Err(err) => bad.push(format!("{{\"class\":\"other\",\"why\":\"C11: written text does not parse: {}\",\"content\":{},\"text\":{}}}", err.to_string().replace('"', "'"), jbytes(content), jstr(&text))),
             }
-            if bad.len() >= 3 {
+            // (failing inputs are classed; the driver reports the first of each class, so a class with a listed known finding must not use up the quota)
+            if bad.len() >= 200 {
                 return (n, bad);
             }
         }
